@@ -153,6 +153,11 @@ Proof.
   rewrite Forall_forall in F. apply F, H.
 Qed.
 
+Lemma neglect_0 : neglect 0 = 0%nat.
+Proof. unfold neglect. destruct (fixed_one_step_per_edge && _); reflexivity. Qed.
+Lemma neglect_ge2 k : (2 <= k)%nat -> neglect k = k.
+Proof. intros H. unfold neglect. destruct (Nat.leb_spec k 1); [lia|]. rewrite andb_false_r. reflexivity. Qed.
+
 Theorem steps_exact_of_guards c :
   g_no_plain_in_spread_group c = true -> g_plain_ge2 c = true -> g_steps_exact c = true.
 Proof.
@@ -164,19 +169,22 @@ Proof.
   assert (Hgs : forall d, gd e = Some (d, None) -> group_spread c (gkey c (gsrc e)) && negb fixed_mixed_kinds = false).
   { intros d Ed. destruct fixed_mixed_kinds; [apply andb_false_r|]. cbn [orb] in Hm.
     rewrite forallb_forall in Hm. specialize (Hm e He). rewrite Ed in Hm. apply negb_true_iff in Hm. rewrite Hm. reflexivity. }
-  unfold plain_steps in *. destruct (gd e) as [[d [s|]]|] eqn:Ed.
-  - destruct (group_spread c (gkey c (gsrc e)) && negb fixed_mixed_kinds); [reflexivity|].
+  destruct (gd e) as [[d [s|]]|] eqn:Ed.
+  - assert (P0 : plain_steps c e = 0%nat) by (unfold plain_steps; rewrite Ed; reflexivity).
+    unfold impl_plain_steps at 2. rewrite P0, neglect_0.
+    destruct (group_spread c (gkey c (gsrc e)) && negb fixed_mixed_kinds); [reflexivity|].
     destruct (Nat.ltb 1 _); reflexivity.
   - rewrite (Hgs d eq_refl). apply Nat.leb_le in Hs.
-    assert (Hin : In (steps_of d (gdt c)) (map (fun e0 => match gd e0 with Some (d0, None) => steps_of d0 (gdt c) | _ => O end)
-                      (filter (fun e' => negb (has_spread e')) (ggroup c (gkey c (gsrc e)))))).
-    { apply in_map_iff. exists e. rewrite Ed. split; [reflexivity|]. apply filter_In. split.
+    assert (Hk : impl_plain_steps c e = plain_steps c e) by (unfold impl_plain_steps; apply neglect_ge2, Hs).
+    assert (Hin : In (impl_plain_steps c e) (map (impl_plain_steps c) (filter (fun e' => negb (has_spread e')) (ggroup c (gkey c (gsrc e)))))).
+    { apply in_map. apply filter_In. split.
       - unfold ggroup. apply filter_In. split; [exact He|apply Nat.eqb_refl].
       - unfold has_spread. rewrite Ed. reflexivity. }
-    apply list_max_ge' in Hin.
-    destruct (Nat.ltb_spec 1 (list_max (map (fun e0 => match gd e0 with Some (d0, None) => steps_of d0 (gdt c) | _ => O end)
-                (filter (fun e' => negb (has_spread e')) (ggroup c (gkey c (gsrc e))))))); [reflexivity|lia].
-  - destruct (group_spread c (gkey c (gsrc e)) && negb fixed_mixed_kinds); [reflexivity|].
+    apply list_max_ge' in Hin. rewrite Hk in Hin.
+    destruct (Nat.ltb_spec 1 (list_max (map (impl_plain_steps c) (filter (fun e' => negb (has_spread e')) (ggroup c (gkey c (gsrc e))))))); [exact Hk|lia].
+  - assert (P0 : plain_steps c e = 0%nat) by (unfold plain_steps; rewrite Ed; reflexivity).
+    unfold impl_plain_steps at 2. rewrite P0, neglect_0.
+    destruct (group_spread c (gkey c (gsrc e)) && negb fixed_mixed_kinds); [reflexivity|].
     destruct (Nat.ltb 1 _); reflexivity.
 Qed.
 
